@@ -828,12 +828,23 @@ def run(ctx):
             {"node": o.get("node"), "mode": o.get("mode"), "want": o.get("want"), "nq": bool(o.get("nq")),
              "results": len(o["case"].get("nodes", [])) * len(MODES)})))
     ctx.notes["oracle_failures"] = len(new)
+    # the current template rule (sections 5.6 / 6) and xsl:apply-imports end to end: built as its own part (props/C10_currule.py)
+    try:
+        import importlib
+        currule_part = importlib.import_module("props.C10_currule")
+    except ImportError:
+        currule_part = None
+    if currule_part is not None:
+        currule_part.run_part(ctx)
     return ctx.finish(LEVEL, explanation="theorems over the Gallina model of the pattern tables and findTemplate + generated facts from XPath.cpp/Stylesheet.cpp + correspondence of the extracted model with whole transformations + independent section 5.5 oracle")
 
 
 def replay(ctx, path):
     core.build_lib("plain")
     txt = open(path).read()
+    if txt.startswith("# C10r replay"):
+        import importlib
+        return importlib.import_module("props.C10_currule").replay(ctx, path)
     d = json.loads(re.search(r"^REPLAY (.*)$", txt, flags=re.M).group(1))
     m = re.search(r"^EXPECT (.*)$", txt, flags=re.M)
     e = json.loads(m.group(1)) if m else {}
